@@ -751,6 +751,7 @@ func rulePartialCover(c *Ctx, r *Rep) {
 		r.Undecided("anchor:partial-marshaller", "", "no func(any, uint, uint) ([]byte, error) using MarshalWithParams")
 		return
 	}
+	partialLoop(c, r, partial)
 	// every struct type whose marshal method calls the partial marshaller
 	n := 0
 	for _, p := range c.Pkgs {
@@ -832,4 +833,127 @@ func rulePartialCover(c *Ctx, r *Rep) {
 		}
 	}
 	r.Check(usesTag, "partial-uses-asn1-tag", c.FnPos(partial), "fields are marshalled with their own asn1 tag", sprintf("%v", usesTag))
+}
+
+// partialLoop: the marshaller itself encodes the fields offset, offset+1, … offset+count-1: every reflect Field access
+// is at offset + i, where i is the variable of a loop that starts at 0, goes up by one and runs while i < count.
+func partialLoop(c *Ctx, r *Rep, partial *ssa.Function) {
+	if len(partial.Params) != 3 {
+		return
+	}
+	fk := c.FuncKey(partial)
+	fromParam := func(v ssa.Value, p *ssa.Parameter) bool {
+		for i := 0; i < 4; i++ {
+			switch x := v.(type) {
+			case *ssa.Convert:
+				v = x.X
+				continue
+			case *ssa.ChangeType:
+				v = x.X
+				continue
+			}
+			break
+		}
+		return v == ssa.Value(p)
+	}
+	// linear forms over (offset, count): a*offset + b*count + k
+	type lin struct{ a, b, k int64 }
+	var linOf func(v ssa.Value, depth int) (lin, bool)
+	linOf = func(v ssa.Value, depth int) (lin, bool) {
+		if depth > 6 {
+			return lin{}, false
+		}
+		switch {
+		case fromParam(v, partial.Params[1]):
+			return lin{1, 0, 0}, true
+		case fromParam(v, partial.Params[2]):
+			return lin{0, 1, 0}, true
+		}
+		switch x := v.(type) {
+		case *ssa.Const:
+			if x.Value != nil && x.Value.Kind() == constant.Int {
+				return lin{0, 0, x.Int64()}, true
+			}
+		case *ssa.Convert:
+			return linOf(x.X, depth+1)
+		case *ssa.BinOp:
+			l, ok1 := linOf(x.X, depth+1)
+			rr, ok2 := linOf(x.Y, depth+1)
+			if ok1 && ok2 {
+				switch x.Op {
+				case token.ADD:
+					return lin{l.a + rr.a, l.b + rr.b, l.k + rr.k}, true
+				case token.SUB:
+					return lin{l.a - rr.a, l.b - rr.b, l.k - rr.k}, true
+				}
+			}
+		}
+		return lin{}, false
+	}
+	n := 0
+	for _, ci := range callsIn(partial) {
+		name := calleeFullName(ci)
+		var idx ssa.Value
+		switch {
+		case name == "(reflect.Value).Field" && len(ci.Common().Args) == 2:
+			idx = ci.Common().Args[1]
+		case ci.Common().IsInvoke() && ci.Common().Method.Name() == "Field" && len(ci.Common().Args) == 1:
+			idx = ci.Common().Args[0]
+		default:
+			continue
+		}
+		n++
+		// idx = phi + A (A possibly absent); phi starts at S, goes up by one, runs while phi < B:
+		// the fields read are S+A … B+A-1, which must be offset … offset+count-1
+		var phi *ssa.Phi
+		add := lin{}
+		okShape := false
+		switch x := idx.(type) {
+		case *ssa.Phi:
+			phi, okShape = x, true
+		case *ssa.BinOp:
+			if x.Op == token.ADD {
+				if p, isP := x.Y.(*ssa.Phi); isP {
+					if l, ok := linOf(x.X, 0); ok {
+						phi, add, okShape = p, l, true
+					}
+				} else if p, isP := x.X.(*ssa.Phi); isP {
+					if l, ok := linOf(x.Y, 0); ok {
+						phi, add, okShape = p, l, true
+					}
+				}
+			}
+		}
+		okIdx, how := false, "index is not (a linear expression of offset and count) + loop variable"
+		if okShape {
+			var start, bound lin
+			haveStart, step, haveBound := false, false, false
+			for _, e := range phi.Edges {
+				if b, isB := e.(*ssa.BinOp); isB && b.Op == token.ADD && b.X == ssa.Value(phi) {
+					if k, isK := b.Y.(*ssa.Const); isK && k.Value != nil && k.Int64() == 1 {
+						step = true
+					}
+					continue
+				}
+				if l, ok := linOf(e, 0); ok {
+					start, haveStart = l, true
+				}
+			}
+			if iff, ok := lastInstr(phi.Block()).(*ssa.If); ok {
+				if cmp, ok := iff.Cond.(*ssa.BinOp); ok && cmp.Op == token.LSS && cmp.X == ssa.Value(phi) {
+					if l, ok := linOf(cmp.Y, 0); ok {
+						bound, haveBound = l, true
+					}
+				}
+			}
+			first := lin{start.a + add.a, start.b + add.b, start.k + add.k}
+			end := lin{bound.a + add.a, bound.b + add.b, bound.k + add.k}
+			okIdx = haveStart && step && haveBound && first == lin{1, 0, 0} && end == lin{1, 1, 0}
+			how = sprintf("fields %d*offset+%d*count+%d up to (excluding) %d*offset+%d*count+%d, step one: %v", first.a, first.b, first.k, end.a, end.b, end.k, step)
+		}
+		r.Check(okIdx, sprintf("marshaller-loop|%s#%d", fk, n), c.Pos(ci.Pos()), "the fields read are offset … offset+count-1, one per round", how)
+	}
+	if n == 0 {
+		r.Undecided("shape:marshaller-loop|"+fk, c.FnPos(partial), "no reflect Field access found in the partial marshaller")
+	}
 }
